@@ -152,6 +152,27 @@ def run(ctx):
                     ctx.violation("child-roundtrip:%s>%s" % (ot, ty), "%s inside %s changes on print + parse" % (ty, ot), {"text": text})
             except Exception as ex:
                 ctx.violation("child-print:%s>%s" % (ot, ty), "%s inside %s cannot be printed: %s" % (ty, ot, type(ex).__name__), {"text": text})
+            # a keyword of the PARENT written after the child block is still the parent's keyword: looked up in the
+            # parent's schema by the printer (a free string must come out quoted) and kept by print + parse
+            child_keys = set((raw.get(ty + ".json") or {}).get("properties") or {})
+            after = [it for it in sweep.usable_slots().get(ot, []) if it.shape == "string" and it.kind == "attr" and not it.repeated and it.key not in child_keys
+                     and "allOf" not in ((raw.get(ot + ".json") or {}).get("properties") or {}).get(it.key, {})][:2]   # allOf-wrapped slots: C01's known finding
+            for it in after:
+                doc2 = docs.Block(ot, [docs.Block(ty, [], singleton), it], False)
+                if ot != "map":
+                    doc2 = sweep.nest(ot, doc2)
+                text2 = docs.render(doc2, docs.Layout())[0]
+                ctx.note_case("after-child:%s>%s:%s" % (ot, ty, it.key))
+                try:
+                    d2 = sweep.fast_loads(text2)
+                except Exception:
+                    continue                     # the slot sweep above reports unparseable positions
+                try:
+                    t3 = mappyfile.dumps(d2)
+                    if docs.plain(sweep.fast_loads(t3)) != docs.plain(d2):
+                        ctx.violation("keyword-after-child:%s>%s" % (ot, ty), "%s %s written after a %s block changes on print + parse" % (ot.upper(), it.key.upper(), ty.upper()), {"text": text2, "printed": t3})
+                except Exception as ex:
+                    ctx.violation("keyword-after-child:%s>%s" % (ot, ty), "%s %s written after a %s block: the printed text is not accepted (%s)" % (ot.upper(), it.key.upper(), ty.upper(), type(ex).__name__), {"text": text2})
     # ---- every declared default is valid for its own keyword
     try:
         from checks._valgen import Spec
